@@ -1,2 +1,3 @@
+@property
 def spec(self):
     return Proxy(self.connections_, '')
